@@ -206,7 +206,7 @@ def d2_d3_d4_mutators(ctx, c, reader):
                     ctx.decide(ok, 'R-ORDER', 'D4', f, node, f'after-write::{cal.name}',
                                f'update: `{norm(node.func)}` runs only after metadata.json was written',
                                detail='an effect (e.g. README regeneration) precedes the write that may still fail')
-    ctx.floor('C13 metadata write sites in mutators', nw, 3)
+    ctx.floor('C13 metadata write sites in mutators', nw, 2)
     # D3: unlink sites
     nd = 0
     for f in c.all_funcs():
@@ -257,7 +257,7 @@ def d2_d3_d4_mutators(ctx, c, reader):
                 ctx.decide(bool(cbs) and must_follow(f, e.node, cbs), 'R-POST', 'D3', f, e.node, f'callback-after-unlink::{f.name}',
                            f'{f.qualname}: the creation/deletion callback follows the unlink',
                            detail='README is not regenerated after the metadata file was removed')
-    ctx.floor('C13 unlink sites', nd, 2)
+    ctx.floor('C13 unlink sites', nd, 1)
 
 
 def fold_exists(test):
